@@ -26,6 +26,7 @@ from cirq import linalg
 from cirq._doc import doc_private
 from cirq.protocols import qid_shape_protocol
 from cirq.protocols.apply_unitary_protocol import apply_unitary, ApplyUnitaryArgs
+from cirq.protocols.has_unitary_protocol import has_unitary
 from cirq.protocols.kraus_protocol import kraus
 
 # This is a special indicator value used by the apply_channel method
@@ -281,9 +282,15 @@ def _apply_unitary(val: Any, args: ApplyChannelArgs) -> np.ndarray | None:
         available_buffer=args.auxiliary_buffer0,
         axes=args.left_axes,
     )
-    left_result = apply_unitary(val, left_args, None)
+    left_result = apply_unitary(val, left_args, None, allow_decompose=False)
     if left_result is None:
-        return None
+        # Decomposing `val` applies the operations of the decomposition to the target tensor in
+        # place one by one, with no way back if one of them is not unitary (e.g. a measurement).
+        if not has_unitary(val):
+            return None
+        left_result = apply_unitary(val, left_args, None)
+        if left_result is None:
+            return None  # pragma: no cover
     right_args = ApplyUnitaryArgs(
         target_tensor=np.conjugate(left_result),
         available_buffer=args.out_buffer,
